@@ -134,11 +134,15 @@ func runSeed(batch uint64, id string, i uint64) uint64 {
 
 func runWorker(h Harness, tier string, seed uint64, spec string) {
 	log.SetOutput(io.Discard) // the code under test logs before it panics
+	realStdout := os.Stdout
+	if null, err := os.OpenFile(os.DevNull, os.O_WRONLY, 0); err == nil {
+		os.Stdout = null // some code under test prints to stdout
+	}
 	parts := strings.Split(spec, ",")
 	start, _ := strconv.ParseUint(parts[0], 10, 64)
 	stride, _ := strconv.ParseUint(parts[1], 10, 64)
 	count, _ := strconv.ParseUint(parts[2], 10, 64)
-	out := bufio.NewWriterSize(os.Stdout, 1<<16)
+	out := bufio.NewWriterSize(realStdout, 1<<16)
 	defer out.Flush()
 	enc := json.NewEncoder(out)
 	for i := start; i < count; i += stride {
@@ -172,9 +176,13 @@ func runOne(h Harness, tier string, path string) {
 		os.Exit(2)
 	}
 	log.SetOutput(io.Discard)
+	realStdout := os.Stdout
+	if null, err := os.OpenFile(os.DevNull, os.O_WRONLY, 0); err == nil {
+		os.Stdout = null
+	}
 	ch := choice.Replay(trace)
 	res := SafeRun(h, ch, Options{Tier: tier, Verbose: true})
-	_ = json.NewEncoder(os.Stdout).Encode(oneOut{Res: res, Consumed: ch.Trace()})
+	_ = json.NewEncoder(realStdout).Encode(oneOut{Res: res, Consumed: ch.Trace()})
 }
 
 // execFresh runs a trace in a fresh process.
@@ -464,6 +472,11 @@ func matchKnown(known []knownFinding, id string, r Result) *knownFinding {
 
 func minimiseAndWrite(h Harness, tier string, seed uint64, f failure) (string, bool, string) {
 	log.SetOutput(io.Discard)
+	realStdout := os.Stdout
+	if null, err := os.OpenFile(os.DevNull, os.O_WRONLY, 0); err == nil {
+		os.Stdout = null // the code under test may print while we re-run it in-process
+		defer func() { os.Stdout = realStdout; null.Close() }()
+	}
 	meta := h.Meta()
 	rs := runSeed(seed, h.ID(), f.idx)
 
